@@ -52,7 +52,7 @@ static mc::Result R;
 static const char* ARENA = "8/8/8/3k4/8/3K4/3P4/8 w - - 0 1";
 
 static const char* PNAME[] = {"SEARCH_STOP", "GO_ENTER", "GO_INIT_DONE", "GO_RESET_DONE", "GO_BESTMOVE", "ITER_START", "NODE", "QNODE",
-                              "UCI_LINE", "UCI_GO_SPAWNED", "THREAD_START", "THREAD_END"};
+                              "UCI_LINE", "UCI_GO_SPAWNED", "THREAD_START", "THREAD_END", "FLAG_LOAD", "FLAG_STORE"};
 
 // ------------------------------------------------------------------ scheduler (child process only)
 struct Th
@@ -194,44 +194,43 @@ static void child_main(Uci& uci, const std::vector<std::string>& script, int a, 
     }
     if (verdict == "ok")
     {
-        // U: from GO_SPAWNED up to (but not including) the step that sets the stop flag / the first command
-        // U's remaining grants: each grant runs U to its next park. The script decides what they are.
-        // We advance U through "uninteresting" parks immediately and hold it at the two interesting ones:
-        //   the park from which the next grant executes `stop`'s flag write (SEARCH_STOP), and
-        //   the park from which the next grant executes `isready` (UCI_LINE(isready)).
-        int held = 0;  // number of interesting U steps already released
+        // The reader thread is held at two parks: before it starts executing `stop` and before it
+        // starts executing `isready` (UCI_LINE parks); `a` search-thread steps are granted before the
+        // first of them in script order, `b - a` more before the second. Inside a command the reader
+        // thread only touches the stop flag, so its inner parks are released at once.
+        int held = 0;
         int budget[2] = {a, b - a};
+        bool in_stop_cmd = false;
         while (verdict == "ok")
         {
-            // is U at an interesting park?
             WaitResult wu = wait_parked(1);
-            if (wu == TIMEOUT)
-            {
-                fail("blocked:uci_thread");
-                break;
-            }
             if (wu == FINISHED) break;
-            bool interesting = g_th[1].point == verif::SEARCH_STOP ||
-                               (g_th[1].point == verif::UCI_LINE && g_u_line == "isready");
+            bool at_line = g_th[1].point == verif::UCI_LINE;
+            if (at_line && in_stop_cmd)
+            {
+                // `stop` has returned
+                in_stop_cmd = false;
+                stop_done = true;
+                if (!best_seen) after_stop = 0;
+            }
+            bool interesting = at_line && (g_u_line == "stop" || g_u_line == "isready");
             if (interesting && held < 2)
             {
                 for (int i = 0; i < budget[held] && verdict == "ok"; ++i)
                     if (!s_step()) break;
                 ++held;
             }
-            bool is_stop_write = g_th[1].point == verif::SEARCH_STOP;
+            if (at_line && g_u_line == "stop") in_stop_cmd = true;
             WaitResult w = step(1);
-            if (w == TIMEOUT)
+            if (w == FINISHED)
             {
-                fail(std::string("blocked:uci_thread_after_") + PNAME[g_th[1].point]);
+                if (in_stop_cmd)
+                {
+                    stop_done = true;
+                    if (!best_seen) after_stop = 0;
+                }
                 break;
             }
-            if (is_stop_write)
-            {
-                stop_done = true;
-                if (!best_seen) after_stop = 0;
-            }
-            if (w == FINISHED) break;
         }
     }
     // U is done (or failed): run S to its bestmove within the bound
@@ -363,7 +362,14 @@ static void judge(const std::string& sname, int a, int b, int bound, const Child
     {
         if (best != 1) R.violation("C06:bestmove_count_" + std::to_string(best) + ":" + where, w());
         if (ready != 1) R.violation("C06:readyok_count_" + std::to_string(ready), w());
-        // legality of the answer is C05's property; recorded here as an outcome only
+        ref::Mv m;
+        std::vector<ref::Mv> lm;
+        ref::gen_legal(root, lm);
+        bool legal = false;
+        for (auto& x : lm)
+            if (ref::uci(x) == bm) legal = true;
+        (void)m;
+        if (best == 1 && !legal) R.violation("C06:illegal_bestmove_after_stop:" + where, w().s("bestmove", bm));
     }
     R.outcome(r.verdict + "/" + std::to_string(r.s_steps_after_stop > 20 ? 99 : r.s_steps_after_stop) + "/" + bm);
     if (r.s_steps_after_stop > (long long)R.counters["max_steps_after_stop"]) R.counters["max_steps_after_stop"] = uint64_t(r.s_steps_after_stop);
